@@ -26,6 +26,14 @@ def queries(tier):
         Query(name="lem_normalize", harness="C25/ec.c", entry="lem_normalize", unwind=20, funcs=[FW[1], FW[2], FW[4]],
               bound="arbitrary writer state in its invariant; byte offsets 0..4 and 65530..65540 (one step)", what="a writer step keeps the writer invariant, never lowers the bit count, stores the byte offset exactly", timeout=900),
     ]
+    for sz in (1, 2, 3):
+        qs.append(Query(name="rt_bool_K1_small_buffers_%d" % sz, harness="C25/ec.c", entry="rt_bool", defines=["K=1", "SMALL_INIT=%d" % sz], unwind=20, funcs=FW + FR,
+                        bound="1 boolean, probability 1..255, initial writer buffers of %d entries (growth paths of the pre-carry and byte buffers taken)" % sz, what="decoded == written although the pre-carry and byte buffers had to grow while holding output", timeout=900))
+    qs.append(Query(name="rt_sym_K1_n4_small_buffers_2", harness="C25/ec.c", entry="rt_sym", defines=["K=1", "NMAX=4", "SMALL_INIT=2"], unwind=20, funcs=FW + FR,
+                    bound="1 symbol, alphabet 2..4, arbitrary valid CDF, initial writer buffers of 2 entries", what="decoded == written, tables equal, although the buffers had to grow while holding output", timeout=900))
+    for t in (1, 2, 3):
+        qs.append(Query(name="lem_capacity_tight%d" % t, harness="C25/ec.c", entry="lem_capacity", defines=["TIGHT=%d" % t], unwind=20, funcs=[FW[1], FW[2], FW[4], "Source/Lib/Common/Codec/EbBitstreamUnit.c:svt_od_ec_enc_done"],
+                        bound="arbitrary writer state in its invariant holding 0..%d pre-carry entries (9-bit), one boolean with any probability, then termination; buffers of 64 vs %d entries" % (t, t), what="emitted bytes identical whether or not the pre-carry / byte buffers had to grow while holding output", timeout=900))
     for n in [2]:   # n=3 did not finish in 3000 s, n=4 not in 900 s; larger alphabets not attempted
         qs.append(Query(name="lem_range_lockstep_n%d" % n, harness="C25/ec.c", entry="lem_range_lockstep", defines=["NFIX=%d" % n], unwind=20,
                         funcs=[FW[0], FW[2], FR[0], FR[3]], bound="arbitrary range 32768..65535, arbitrary window, alphabet %d (one step)" % n,
